@@ -242,11 +242,15 @@ fn hist_strategy() -> impl Strategy<Value = FHist> {
     (0u8..4, prop::collection::vec(any::<(u8, u8, u8)>(), 3..30), prop::option::weighted(0.3, region))
         .prop_flat_map(|(class, raw, soup)| (Just(class), Just(raw), Just(soup), prop::collection::vec(name_strategy(class), 5..=5)))
         .prop_map(|(class, raw, soup, mut names)| {
+            let mut soup = soup;
             if class == 3 {
                 // a distinct leading digit: no two names of the history fold to the same string under any folding
                 for (i, n) in names.iter_mut().enumerate() {
                     *n = format!("{}{}", i, n);
                 }
+                // ... and no raw region: the lookups derived from its short entries are names of their own ("1S" next to
+                // a generated "1" + long s would be a case variant after all)
+                soup = None;
             }
             (class, raw, soup, names)
         })
